@@ -113,7 +113,7 @@ Section StoresProofs.
     proj_eq (fst (sstep st o)) st s'.
   Proof.
     intros Ho Hne Hs Hs'.
-    destruct o as [id name | id | id | | s0 w | s0 q | s0 id b | s0 id | s0 | s0 | s0 m l | s0 m];
+    destruct o as [id name | id | id | | ids nm | s0 w | s0 q | s0 id b | s0 id | s0 | s0 | s0 m l | s0 m];
       simpl in Ho; inversion Ho; subst; simpl; try apply proj_eq_refl.
     - destruct (alookup beqb s (s_stores body tup chg st)); simpl; [apply proj_eq_refl|].
       split; [apply up_other; exact Hne | repeat split].
@@ -135,7 +135,7 @@ Section StoresProofs.
     snd (sstep a o) = snd (sstep b o) /\ proj_eq (fst (sstep a o)) (fst (sstep b o)) s.
   Proof.
     intros Ho Hs P. pose proof P as (P1 & P2 & P3 & P4 & P5).
-    destruct o as [id name | id | id | | s0 w | s0 q | s0 id b0 | s0 id | s0 | s0 | s0 m l | s0 m];
+    destruct o as [id name | id | id | | ids nm | s0 w | s0 q | s0 id b0 | s0 id | s0 | s0 | s0 m l | s0 m];
       simpl in Ho; inversion Ho; subst; simpl.
     - rewrite P1. destruct (alookup beqb s (s_stores body tup chg b)); simpl; [split; [reflexivity | exact P]|].
       split; [reflexivity|]. split; [simpl; rewrite !up_same; reflexivity|].
@@ -225,7 +225,7 @@ Section StoresProofs.
     alookup beqb id (s_stores body tup chg (fst (sstep st o))) = None.
   Proof.
     intros Hc H.
-    destruct o as [id' name | id' | id' | | s0 w | s0 q | s0 i b0 | s0 i | s0 | s0 | s0 m l | s0 m]; simpl; try exact H.
+    destruct o as [id' name | id' | id' | | ids nm | s0 w | s0 q | s0 i b0 | s0 i | s0 | s0 | s0 m l | s0 m]; simpl; try exact H.
     - destruct (alookup beqb id' (s_stores body tup chg st)); simpl; [exact H|].
       simpl in Hc. rewrite up_other; [exact H|]. intro E. subst. rewrite beqb_refl in Hc. discriminate.
     - destruct (beqb id' id) eqn:E.
@@ -237,10 +237,36 @@ Section StoresProofs.
   Lemma srun_app h1 h2 st : srun st (h1 ++ h2) = srun (srun st h1) h2.
   Proof. revert st. induction h1 as [|o h1 IH]; intro st; simpl; [reflexivity | apply IH]. Qed.
 
+  Lemma lookup_none_all id (l : list (bytes * bytes)) :
+    alookup beqb id l = None -> forall p, In p l -> beqb (fst p) id = false.
+  Proof.
+    induction l as [|[k v] l IH]; simpl; [intros _ p []|].
+    destruct (beqb k id) eqn:E; [discriminate|]. intros H p [<- | Hp]; [exact E | apply IH; assumption].
+  Qed.
+
+  Lemma mem_list_sub tbl ids name p : In p (mem_list_stores tbl ids name) -> In p tbl.
+  Proof.
+    unfold mem_list_stores. intro H.
+    assert (G : In p (match ids with [] => tbl | _ => flat_map (fun id => filter (fun q => beqb (fst q) id) tbl) ids end)).
+    { destruct name; [exact H | apply filter_In in H; apply H]. }
+    destruct ids as [|i ids]; [exact G|].
+    apply in_flat_map in G as [x [_ Hx]]. apply filter_In in Hx. apply Hx.
+  Qed.
+
+  Lemma listed_filtered_none id tbl ids name :
+    alookup beqb id tbl = None -> existsb (fun p => beqb (fst p) id) (mem_list_stores tbl ids name) = false.
+  Proof.
+    intro H. destruct (existsb _ _) eqn:E; [|reflexivity].
+    apply existsb_exists in E as [p [Hp Hid]]. apply mem_list_sub in Hp.
+    rewrite (lookup_none_all id tbl H p Hp) in Hid. discriminate.
+  Qed.
+
   Theorem deleted_store_hidden h1 h2 id :
     forallb (fun o => negb (creates body wreq qreq id o)) h2 = true ->
     snd (sstep (srun sinit (h1 ++ PDelete body wreq qreq id :: h2)) (PGet body wreq qreq id)) = QNotFound body wres qres /\
-    listed body wres qres id (snd (sstep (srun sinit (h1 ++ PDelete body wreq qreq id :: h2)) (PList body wreq qreq))) = false.
+    listed body wres qres id (snd (sstep (srun sinit (h1 ++ PDelete body wreq qreq id :: h2)) (PList body wreq qreq))) = false /\
+    forall ids name,
+      listed body wres qres id (snd (sstep (srun sinit (h1 ++ PDelete body wreq qreq id :: h2)) (PListF body wreq qreq ids name))) = false.
   Proof.
     intro Hn.
     assert (G : forall h st, forallb (fun o => negb (creates body wreq qreq id o)) h = true ->
@@ -253,11 +279,78 @@ Section StoresProofs.
     { rewrite srun_app. change (srun (srun sinit h1) (PDelete body wreq qreq id :: h2))
         with (srun (fst (sstep (srun sinit h1) (PDelete body wreq qreq id))) h2).
       apply G; [exact Hn|]. simpl. apply rm_same. }
-    split.
+    split; [|split].
     - simpl. rewrite H. reflexivity.
     - simpl. apply listed_none. exact H.
+    - intros ids name. simpl. apply listed_filtered_none. exact H.
   Qed.
 End StoresProofs.
+
+(* ------------------------------------------------------------------------------------------ *)
+(* sqlite's store table                                                                          *)
+
+Definition all_deleted (id : bytes) (t : sql_store_tbl) : Prop :=
+  forall r, In r t -> beqb (fst (fst r)) id = true -> snd r = true.
+
+Lemma sql_tstep_keeps id t o : tcreates id o = false -> all_deleted id t -> all_deleted id (fst (sql_tstep t o)).
+Proof.
+  intros Hc H. destruct o as [id' name | id' | id' | ids name]; simpl; try exact H.
+  - unfold sql_create_store. destruct (existsb _ t); simpl; [exact H|].
+    intros r Hr Hid. apply in_app_or in Hr as [Hr | [<- | []]]; [apply (H r Hr Hid)|].
+    simpl in *. rewrite Hid in Hc. discriminate.
+  - unfold sql_delete_store. intros r Hr Hid. apply in_map_iff in Hr as [r0 [<- Hr0]].
+    destruct (beqb (fst (fst r0)) id') eqn:E; simpl in *; [reflexivity | apply (H r0 Hr0 Hid)].
+Qed.
+
+Lemma sql_delete_all_deleted id t : all_deleted id (sql_delete_store t id).
+Proof.
+  unfold sql_delete_store. intros r Hr Hid. apply in_map_iff in Hr as [r0 [<- Hr0]].
+  destruct (beqb (fst (fst r0)) id) eqn:E; simpl in *; [reflexivity | congruence].
+Qed.
+
+Lemma sql_trun_app h1 h2 t : sql_trun t (h1 ++ h2) = sql_trun (sql_trun t h1) h2.
+Proof. revert t. induction h1 as [|o h1 IH]; intro t; simpl; [reflexivity | apply IH]. Qed.
+
+Lemma sql_trun_keeps id h : forall t,
+  forallb (fun o => negb (tcreates id o)) h = true -> all_deleted id t -> all_deleted id (sql_trun t h).
+Proof.
+  induction h as [|o h IH]; intros t Hn H; [exact H|].
+  simpl in Hn. apply andb_true_iff in Hn as [Ho Hh]. apply negb_true_iff in Ho.
+  simpl. apply IH; [exact Hh|]. apply sql_tstep_keeps; assumption.
+Qed.
+
+Lemma all_deleted_get id t : all_deleted id t -> sql_get_store t id = None.
+Proof.
+  intro H. unfold sql_get_store.
+  destruct (filter (fun r => beqb (fst (fst r)) id && negb (snd r)) t) as [|r l] eqn:E; [reflexivity|].
+  assert (Hin : In r (filter (fun r => beqb (fst (fst r)) id && negb (snd r)) t)) by (rewrite E; left; reflexivity).
+  apply filter_In in Hin as [Hr Hc]. apply andb_true_iff in Hc as [Hid Hd].
+  rewrite (H r Hr Hid) in Hd. discriminate.
+Qed.
+
+Lemma all_deleted_list id t ids name :
+  all_deleted id t -> existsb (fun p => beqb (fst p) id) (sql_list_stores t ids name) = false.
+Proof.
+  intro H. destruct (existsb _ _) eqn:E; [|reflexivity].
+  apply existsb_exists in E as [p [Hp Hid]]. unfold sql_list_stores in Hp.
+  apply in_map_iff in Hp as [r [<- Hr]]. apply filter_In in Hr as [Hr Hc].
+  apply andb_true_iff in Hc as [Hc _]. apply andb_true_iff in Hc as [Hd _].
+  rewrite (H r Hr Hid) in Hd. discriminate.
+Qed.
+
+(* sqlite: a deleted store is hidden from GetStore and from ListStores under every combination
+   of the IDs and name filters, after every later history that does not create the id *)
+Theorem sqlite_deleted_store_hidden h1 h2 id :
+  forallb (fun o => negb (tcreates id o)) h2 = true ->
+  let t := sql_trun [] (h1 ++ TDelete id :: h2) in
+  sql_get_store t id = None /\
+  forall ids name, existsb (fun p => beqb (fst p) id) (sql_list_stores t ids name) = false.
+Proof.
+  intros Hn t.
+  assert (H : all_deleted id t).
+  { unfold t. rewrite sql_trun_app. simpl. apply sql_trun_keeps; [exact Hn | apply sql_delete_all_deleted]. }
+  split; [apply all_deleted_get; exact H | intros ids name; apply all_deleted_list; exact H].
+Qed.
 
 (* ------------------------------------------------------------------------------------------ *)
 (* cache keys                                                                                    *)
